@@ -135,7 +135,29 @@ def evaluate(E, node, memo):
     return None, "other"
 
 
-def walk_system(E, system, objs_list, V, C, ctx):
+def check_inputs(E, spec, objs, V, C, ctx):
+    """every input given as a sourced value is held by its object as that very kind of value: a leaf (no operands) with its source"""
+    from ..spec import reachable
+    for n in reachable(spec):
+        o = spec["objects"][n]
+        if n not in objs:
+            continue
+        for p, vs in o["params"].items():
+            if vs[0] not in ("q", "h", "s", "tz"):
+                continue
+            live = objs[n].__dict__.get(p)
+            if not isinstance(live, E.ExplainableObject) or isinstance(live, E.EmptyExplainableObject):
+                continue
+            C["input_leaves_checked"] = C.get("input_leaves_checked", 0) + 1
+            if live.left_parent is not None or live.right_parent is not None:
+                V.append({"kind": "an input given as a source value is held as a derived value", "object": n, "input": p, **ctx})
+            elif getattr(live, "source", None) is None:
+                V.append({"kind": "an input given as a source value is held without its source", "object": n, "input": p, **ctx})
+            if len(V) > 4:
+                return
+
+
+def walk_system(E, system, objs_list, V, C, ctx, strict_current=True):
     cache = {}
 
     def memo(x):
@@ -169,6 +191,13 @@ def walk_system(E, system, objs_list, V, C, ctx):
                     if id(n) in seen:
                         continue
                     seen.add(id(n))
+                    if strict_current and n.modeling_obj_container is None and getattr(n, "initial_modeling_obj_container", None) is not None:
+                        # the formula of a current value displays a value that was an attribute of an object and has been replaced since
+                        C["superseded_operands"] = C.get("superseded_operands", 0) + 1
+                        V.append({"kind": "the explanation of a current value displays a value the model no longer holds (superseded)",
+                                  "operand": n.label, "was_in": getattr(n.initial_modeling_obj_container, "name", None), "under": [o.name, attr], **ctx})
+                        if len(V) > 4:
+                            return
                     if n.left_parent is None and n.right_parent is None:
                         C["leaves_checked"] += 1
                         attached = n.modeling_obj_container is not None
@@ -217,6 +246,7 @@ def run_case(case):
         return {"counters": C, "classes": sorted(classes), "violations": [{"kind": "builder model failed to build", "error": h.build_error}] if spec else []}
     V = []
     walk_system(E, h.system, observe.all_objects(h.system), V, C, {"when": "after build"})
+    check_inputs(E, h.spec, h.objs, V, C, {"when": "after build"})
     for k in range(case["n_edits"]):
         if V:
             break
@@ -225,6 +255,13 @@ def run_case(case):
             break
         C["walks_after_edit"] += 1
         walk_system(E, h.system, observe.all_objects(h.system), V, C, {"when": "after " + edits.describe(e), "history": h.log[-5:]})
+        check_inputs(E, h.spec, h.objs, V, C, {"when": "after " + edits.describe(e)})
+    if not V:
+        # the same model built from scratch (optional inputs such as a fixed instance count then go through the constructors)
+        ref, err = h.reference()
+        if ref is not None:
+            C["rebuilds_walked"] = C.get("rebuilds_walked", 0) + 1
+            check_inputs(E, h.spec, ref, V, C, {"when": "model rebuilt from its inputs", "history": h.log[-5:]})
     if not V and case["idx"] % 5 == 0:
         from .. import sim
         try:
@@ -232,7 +269,8 @@ def run_case(case):
             m = E.ModelingUpdate(sim.to_library_changes(changes, h.objs), sim.pick_date(rnd, h.objs, h.spec, "first"))
             m.set_updated_values()
             C["walks_with_simulation_on"] += 1
-            walk_system(E, h.system, observe.all_objects(h.system), V, C, {"when": "simulation toggled on", "changes": sim.describe_changes(changes)})
+            walk_system(E, h.system, observe.all_objects(h.system), V, C, {"when": "simulation toggled on", "changes": sim.describe_changes(changes)},
+                        strict_current=False)
             m.reset_values()
         except Exception:
             pass
